@@ -1,5 +1,6 @@
 SPECIFICATION Spec
 CONSTANT MaxDev = 1
+CONSTANT Diag = FALSE
 CONSTANT MaxLen = 3
 INVARIANT TypeOK
 INVARIANT CacheCoherent
